@@ -389,4 +389,14 @@ def interferometerCmds [DecidableEq A] [Neg A] (zero : A) (clip mod2pi : A → A
      | some l => l.reverse.flatMap (bs2Cmds zero clip dropId reg))
   else []
 
+/-- `Interferometer._decompose`, T/MZ meshes: the factor list of the Reck mesh (`triangular`) denotes
+`U = T₁⁻¹ ⋯ T_k⁻¹ D` — the local phases come first, then the inverse blocks in list order — so it is
+re-filed as `BS1 = []`, `BS2 = reversed(BS1)` before the common emission loop -/
+def interferometerDecompose [DecidableEq A] [Neg A] (zero : A) (clip mod2pi : A → A)
+    (identity dropId symmetric triangular : Bool) (reg : List Nat)
+    (BS1 : List (Nat × Nat × A × A)) (R : List (Option A)) (BS2 : Option (List (Nat × Nat × A × A))) :
+    List (MCmd A) :=
+  if triangular then interferometerCmds zero clip mod2pi identity dropId symmetric reg [] R (some BS1.reverse)
+  else interferometerCmds zero clip mod2pi identity dropId symmetric reg BS1 R BS2
+
 end SFV.Decompose
